@@ -76,7 +76,7 @@ def configs(tier, seed):
     tries = 0
     while len(out) < want and tries < want * 20:
         tries += 1
-        aw = rnd.randint(3, 7 if tier == "quick" else 9)
+        aw = rnd.randint(3, 7 if tier == "quick" else 9) if tries % 25 else rnd.choice([12, 16])
         cfg = {"aw": aw, "dw": rnd.choice([8, 16]), "align": rnd.choice([0, 0, 0, 1, 2, 3]), "subs": [],
                "rejected": rnd.random() < 0.3}
         for i in range(rnd.randint(1, 4 if tier == "quick" else 6)):
